@@ -113,6 +113,26 @@ def backOf (st : St) (i : Nat) (r : Rec) : List String :=
 
 def verStr : Ver → String | .gfa1 => "gfa1" | .gfa2 => "gfa2"
 
+/-- `Path._link_orient`: "-" when the step walks the link backwards, i.e. it is matched by the complement of the
+    link only (a hairpin link can match a step both ways: it is then taken forwards) -/
+def linkOrient (k s : Link) : String :=
+  if k.compatCompl s.frm s.fo s.to s.too s.ovl && !k.compatDirect s.frm s.fo s.to s.too s.ovl then "-" else "+"
+
+/-- the record is a stored link that satisfies the step -/
+def fits (s : Link) (q : Rec) : Bool :=
+  match q.linkOf with
+  | some k => k.compatible s.frm s.fo s.to s.too s.ovl
+  | none => false
+
+/-- `path.links`: for every step the stored link it resolves to (first compatible one) and the orientation flag -/
+def pathLinks (st : St) (p : Rec) : List String :=
+  p.pathSteps.map (fun s =>
+    match st.lines.find? (fits s) with
+    | some q => (match q.linkOf with
+        | some k => q.text ++ " " ++ linkOrient k s
+        | none => "?")
+    | none => "?")
+
 /-- canonical observation (same layout as harness/lib.py `obs_flat`) -/
 def obs (st : St) : String :=
   let text := sortStrs (st.lines.map Rec.text)
@@ -121,8 +141,9 @@ def obs (st : St) : String :=
   let back := sortStrs (st.lines.zipIdx.filterMap (fun (r, i) =>
     let b := backOf st i r
     if b.isEmpty then none else some (r.text ++ C ++ C.intercalate b)))
+  let plinks := sortStrs ((st.lines.filter (fun r => r.rt = .P)).map (fun p => p.text ++ C ++ A.intercalate (pathLinks st p)))
   B.intercalate ["ver=" ++ verStr st.ver, "text=" ++ A.intercalate text, "names=" ++ A.intercalate nms,
-    "virt=" ++ A.intercalate virt, "back=" ++ (B ++ B).intercalate back]
+    "virt=" ++ A.intercalate virt, "back=" ++ (B ++ B).intercalate back, "plinks=" ++ (B ++ B).intercalate plinks]
 
 /-- parse one written line into a record -/
 def parseRec (s : String) : Option Rec :=
